@@ -441,6 +441,9 @@ func decodeSCTPInit(data []byte, p gopacket.PacketBuilder) error {
 	if err != nil {
 		return err
 	}
+	if chunk.Length < 20 {
+		return errors.New("invalid SCTP init chunk length")
+	}
 	sc := &SCTPInit{
 		SCTPChunk:                      chunk,
 		InitiateTag:                    binary.BigEndian.Uint32(data[4:8]),
@@ -505,6 +508,9 @@ func decodeSCTPSack(data []byte, p gopacket.PacketBuilder) error {
 	if err != nil {
 		return err
 	}
+	if chunk.Length < 16 {
+		return errors.New("invalid SCTP sack chunk length")
+	}
 	sc := &SCTPSack{
 		SCTPChunk:                      chunk,
 		CumulativeTSNAck:               binary.BigEndian.Uint32(data[4:8]),
@@ -528,12 +534,18 @@ func decodeSCTPSack(data []byte, p gopacket.PacketBuilder) error {
 	}
 	sc.GapACKs = make([]uint16, 0, gapAcks)
 	sc.DuplicateTSNs = make([]uint32, 0, dupTSNs)
-	bytesRemaining := data[16:]
+	bytesRemaining := data[16:sc.ActualLength]
 	for i := 0; i < int(sc.NumGapACKs); i++ {
+		if len(bytesRemaining) < 2 {
+			return errors.New("SCTP sack gap ack blocks exceed chunk length")
+		}
 		sc.GapACKs = append(sc.GapACKs, binary.BigEndian.Uint16(bytesRemaining[:2]))
 		bytesRemaining = bytesRemaining[2:]
 	}
 	for i := 0; i < int(sc.NumDuplicateTSNs); i++ {
+		if len(bytesRemaining) < 4 {
+			return errors.New("SCTP sack duplicate TSNs exceed chunk length")
+		}
 		sc.DuplicateTSNs = append(sc.DuplicateTSNs, binary.BigEndian.Uint32(bytesRemaining[:4]))
 		bytesRemaining = bytesRemaining[4:]
 	}
@@ -696,6 +708,9 @@ func decodeSCTPShutdown(data []byte, p gopacket.PacketBuilder) error {
 	chunk, err := decodeSCTPChunk(data)
 	if err != nil {
 		return err
+	}
+	if chunk.Length < 8 {
+		return errors.New("invalid SCTP shutdown chunk length")
 	}
 	sc := &SCTPShutdown{
 		SCTPChunk:        chunk,
